@@ -13,6 +13,7 @@ import VaxisModel.Spec.KeyEnc
 
 Ops (`op<TAB>impl`):
   dec U seq spec            impl = key          model decodeKey; oracle = Spec expected key (`spec`)
+  e2e U seq spec            impl = key|none     the bytes injected into a real Vaxis (fake console), Key event from Events()
   mat U key rune mask       impl = 0|1          model matches;  oracle = documented rules + strong-mods
   mstr U F key str          impl = 0|1          model matchString
   self U F key              impl = String()|0|1 model keyString + matchString of it; oracle: a pressed chord matches
@@ -172,6 +173,21 @@ def step (line : String) : String :=
       | .ok none => s!"{showKey model}\t{impl}\t-"
       | .ok (some k) =>
         let v := if showKey k = impl then "ok" else s!"FAIL decoded {impl} but the encoding denotes {showKey k}"
+        s!"{showKey model}\t{impl}\t{v}"
+    | _, _ => bad
+  | ["e2e", ut, seqt, spec] =>
+    -- the same sequence injected into a real Vaxis; `none` = Vaxis did not route it to a Key event
+    -- (cursor-position report, paste marker, …: routing is C03's)
+    match parseU? ut, parseSeq? seqt with
+    | some t, some seq =>
+      if impl = "none" then "none\tnone\t-" else
+      let u := mkUni t []
+      let model := decodeKey u seq
+      match expected u seq spec with
+      | .error e => s!"{showKey model}\t{impl}\tFAIL generator/parser disagrees with Spec: {e}"
+      | .ok none => s!"{showKey model}\t{impl}\t-"
+      | .ok (some k) =>
+        let v := if showKey k = impl then "ok" else s!"FAIL Vaxis delivered {impl} but the encoding denotes {showKey k}"
         s!"{showKey model}\t{impl}\t{v}"
     | _, _ => bad
   | ["mat", ut, kt, rt, mt] =>
